@@ -10,7 +10,7 @@
  */
 #include "types.h"
 
-/*@unit {'name':'c02_fetch_opcode', 'props':['C02','C01'], 'entry':'h_fetch', 'enforce':'decoder_fetch_opcode', 'object_bits':11, 'replay':'c02_decoder', 'witness_defines':[], 'witness_vars':['w_k'],
+/*@unit {'name':'c02_fetch_opcode', 'props':['C02','C01','C03'], 'entry':'h_fetch', 'enforce':'decoder_fetch_opcode', 'object_bits':11, 'replay':'c02_decoder', 'witness_defines':[], 'witness_vars':['w_k'],
          'replace':['decoder_valid_upto','decoder_test_ref','decoder_test_context','decoder_test_attr','decoder_failure'], 'cost':60,
          'claims':'loader soundness lemma: an accepted opcode has analysed depth >= the pops of its body and the analysed depth follows the net effect of the body (all 67 on-disk opcodes, symbolic opcode byte and parameters, exact-size bytecode buffer: parameter reads stay inside the bytecode)'}@*/
 /*@unit {'name':'c02_effects_vs_contracts', 'props':['C02','C07'], 'entry':'h_effects',
@@ -105,7 +105,9 @@ __CPROVER_ensures((ACC(__CPROVER_return_value) && (OPC == PUSH_GLYPH_ATTR_OBS ||
 __CPROVER_ensures((ACC(__CPROVER_return_value) && (OPC == PUSH_GLYPH_ATTR || OPC == PUSH_ATT_TO_GLYPH_ATTR)) ==> P16(1) < self->_max_->glyf_attrs)
 __CPROVER_ensures((ACC(__CPROVER_return_value) && (OPC == PUSH_FEAT || OPC == SET_FEAT)) ==> g_bc[1] < self->_max_->features)
 __CPROVER_ensures((ACC(__CPROVER_return_value) && (OPC == PUSH_GLYPH_METRIC || OPC == PUSH_ATT_TO_GLYPH_METRIC)) ==> g_bc[1] < kgmetDescent)
-__CPROVER_ensures((ACC(__CPROVER_return_value) && OPC == ASSOC) ==> g_bc[1] != 0);
+__CPROVER_ensures((ACC(__CPROVER_return_value) && OPC == ASSOC) ==> g_bc[1] != 0)
+/* the stream changes length only before slot indices are assigned: INSERT / DELETE are accepted in substitution-type passes only (C03: indices are a permutation of 0..n-1; positioning passes run after Segment::associateChars) */
+__CPROVER_ensures((ACC(__CPROVER_return_value) && (OPC == INSERT || OPC == DELETE)) ==> self->_passtype < PASS_TYPE_POSITIONING);
 
 /* ---- extracted code */
 bool decoder_validate_opcode(decoder *self, const byte opc, const byte *const bc);
